@@ -127,7 +127,13 @@ impl<'a> SdesChunk<'a> {
 
     /// The length of this chunk
     pub fn length(&self) -> usize {
-        let len = Self::MIN_LEN + self.items.iter().fold(0, |acc, item| acc + item.length());
+        // SSRC, each item with its 2 byte header, and at least one terminating null byte
+        let len = Self::MIN_LEN
+            + self
+                .items
+                .iter()
+                .fold(0, |acc, item| acc + 2 + item.length())
+            + 1;
         pad_to_4bytes(len)
     }
 
